@@ -22,10 +22,6 @@ HERE = os.path.dirname(os.path.dirname(os.path.abspath(__file__)))
 # id, property, file, old, new, note
 MUTANTS = [
     # ---- C06 -------------------------------------------------------------------
-    ("m06_no_deepcopy", "C06", "codelimit/common/gsm/Pattern.py",
-     "self.predicate_map[predicate_id] = deepcopy(transition[0])",
-     "self.predicate_map[predicate_id] = transition[0]",
-     "predicates no longer copied per match attempt: Balanced.depth leaks between attempts and files"),
     ("m06_first_transition", "C06", "codelimit/common/gsm/Pattern.py",
      "        open_transitions = [t for t in transitions if t[0].is_open()]\n        for predicate, next_state in open_transitions or transitions:",
      "        for predicate, next_state in transitions:\n            if found_transition:\n                break",
@@ -34,10 +30,10 @@ MUTANTS = [
      "def find_all(expression: Expression, sequence: list) -> list[Pattern]:\n    dfa = nfa_to_dfa(expression_to_nfa(expression))",
      "_DFA_CACHE: dict = {}\n\n\ndef find_all(expression: Expression, sequence: list) -> list[Pattern]:\n    key = str(expression)\n    if key not in _DFA_CACHE:\n        _DFA_CACHE[key] = nfa_to_dfa(expression_to_nfa(expression))\n    dfa = _DFA_CACHE[key]",
      "DFA memoised per expression text: harmless alone (Pattern deep-copies predicates) - expected NOT to break C06; control mutant"),
-    ("m06_walk_order_leak", "C06", "codelimit/common/Scanner.py",
-     "    checksum = calculate_checksum(path)\n    rel_path = relpath(path, root)",
-     "    checksum = calculate_checksum(path)\n    rel_path = relpath(path, root)\n    if codebase.files and lexer.__class__.name not in codebase.totals and len(codebase.files) % 2:\n        lexer.stripnl = False",
-     "lexer option depends on how many files were seen before the first file of a language: result depends on traversal order"),
+    ("m06_memo_by_checksum", "C06", "codelimit/common/Scanner.py",
+     "def _analyze_file(path, rel_path, checksum, lexer):\n    logging.info(f\"Analyzing {rel_path}\")",
+     "_ANALYSED: dict = {}\n\n\ndef _analyze_file(path, rel_path, checksum, lexer):\n    if checksum in _ANALYSED:\n        prev = _ANALYSED[checksum]\n        return SourceFileEntry(rel_path, checksum, prev.language, prev.loc, prev.measurements())\n    entry = _analyze_file_uncached(path, rel_path, checksum, lexer)\n    _ANALYSED[checksum] = entry\n    return entry\n\n\ndef _analyze_file_uncached(path, rel_path, checksum, lexer):\n    logging.info(f\"Analyzing {rel_path}\")",
+     "in-process memo of analysis results keyed by content checksum only: identical bytes under two extensions get the language and measurements of whichever was walked first"),
     # ---- C09 -------------------------------------------------------------------
     ("m09_no_checksum", "C09", "codelimit/common/Scanner.py",
      "if cached_entry and cached_entry.checksum() == checksum:", "if cached_entry:",
@@ -46,9 +42,9 @@ MUTANTS = [
      "            cached_entry = cached_report.codebase.files[rel_path]\n        except KeyError:\n            pass",
      "            cached_entry = cached_report.codebase.files[rel_path]\n        except KeyError:\n            for k, v in cached_report.codebase.files.items():\n                if k.rsplit('/', 1)[-1] == rel_path.rsplit('/', 1)[-1] and v.checksum() == checksum:\n                    cached_entry = v",
      "entries are also reused for a file with the same basename and content under another path (the statement allows reuse only when the path is unchanged; results stay equal, so only the analysis recorder can see it)"),
-    ("m09_size_checksum", "C09", "codelimit/common/utils.py",
-     "        return hashlib.md5(file_bytes).hexdigest()", "        return hashlib.md5(str(len(file_bytes)).encode()).hexdigest()",
-     "checksum only covers the file size: same-size edits (swap of equal-length contents, one-character change) are missed"),
+    ("m09_prefix_checksum", "C09", "codelimit/common/utils.py",
+     "        return hashlib.md5(file_bytes).hexdigest()", "        return hashlib.md5(file_bytes[:256]).hexdigest()",
+     "checksum only covers the first 256 bytes: an edit further down the file is not noticed"),
     ("m09_version_not_restored", "C09", "codelimit/common/report/ReportReader.py",
      "        report.version = d.get(\"version\")\n", "",
      "revert of fix F2: cache of another version is reused"),
